@@ -51,6 +51,7 @@ void harness(void) {
 
 	REACH("rule returns");
 	if (result != NULL && res == KSI_OK && result->resultCode == KSI_VER_RES_OK) REACH("verdict OK (chain received)");
+	if (result != NULL && res == KSI_OK && result->resultCode == KSI_VER_RES_OK && g_c04_td.calendarChain == &g_c04_newCal && g_c04_x_new_live == 1) REACH("verdict OK and the reply chain is buffered");
 	if (result != NULL && res == KSI_OK && result->resultCode == KSI_VER_RES_NA && result->status != KSI_OK) REACH("verdict NA with the error status recorded");
 	if (result != NULL && res != KSI_OK && C04_ARGS_OK(info) && g_c04_rcv_calls == 1) REACH("fatal error of the round trip reported as status");
 	if (result != NULL && res == KSI_INVALID_ARGUMENT) REACH("invalid argument reported");
